@@ -24,12 +24,13 @@ def genAdoptOk (w y : View) : Bool :=
 
 /-- `CheckProposerMessage` on a non-partial PRECOMMIT message fetched by a replica in view `v`
     (`GetProposal` looks it up under the replica's round and phase PRECOMMIT; the replica's root height is
-    `v.root`; it holds the block it propose-voted for): header checks, then the PRECOMMIT/COMMIT branch. -/
+    `v.root`; it holds the block it propose-voted for; the sender is the leader it follows): header checks, then the
+    PRECOMMIT/COMMIT branch. -/
 def genCertBound (q : View) (qp : Bool) (v : View) : Bool :=
   let qc := hdrOf q (if qp then phase_PROPOSE_VOTE else phase_PRECOMMIT_VOTE)
   let hdr := hdrOf v phase_PRECOMMIT
   !(Gen.Bft.leaderMsgHeaderRejected qc hdr v.root modelHeight 0) &&
-    (Gen.Bft.leaderMsgChecks qc hdr true 0 0 0 0).isNone
+    (Gen.Bft.leaderMsgChecks qc hdr 1 1 true 0 0 0 0).isNone
 
 /-- the model over the generated decisions -/
 def genCfg (committee : List Nat) (pw : Nat → Nat) (byz : Nat → Bool) : Cfg :=
